@@ -1079,6 +1079,26 @@ example : AroundWF (Step.replaceAround 1 6 2 5 ⟨[.elem 0 [] [] []], 0, 0⟩ 1 
     GapSep (Step.replaceAround 1 6 2 5 ⟨[.elem 0 [] [] []], 0, 0⟩ 1 true) := by
   refine ⟨⟨by decide, by decide, by decide⟩, .inl (by decide)⟩
 
+/-! ### the side conditions as executable guards (evaluated on the real steps by the harness) -/
+
+theorem aroundWF_of_guard (st : Step) (h : aroundWFB st = true) : AroundWF st := by
+  cases st with
+  | replaceAround f t gf gt sl ins b =>
+    simp only [aroundWFB, StepWF, StepOrdered, Bool.and_eq_true, decide_eq_true_eq] at h
+    exact ⟨h.1.1, h.1.2, h.2.1.1, h.2.1.2, h.2.2⟩
+  | _ => trivial
+
+theorem aroundOK_of_guard (st : Step) (h : aroundOKB st = true) : AroundOK st := by
+  cases st with
+  | replaceAround f t gf gt sl ins b =>
+    simp only [aroundOKB, Bool.and_eq_true, Bool.or_eq_true, decide_eq_true_eq] at h
+    obtain ⟨hwf, hwf2, hord⟩ := aroundWF_of_guard _ h.1
+    exact ⟨hwf, hwf2, hord, by omega⟩
+  | _ => trivial
+
+theorem gapSep_iff_guard (st : Step) : gapSepB st = true ↔ GapSep st := by
+  cases st <;> simp [gapSepB, GapSep]
+
 /-! ### the size delta for every step kind and along a history -/
 
 /-- **every step kind**: the document size changes by the sum of (new − old) over the map's ranges
